@@ -10,6 +10,10 @@ CHECKS = {
  'C17': dict(level='exploration', ref='3/C17', technique='hashmap.c #included into an ASan/UBSan harness: exhaustive small-scope histories + long random histories vs reference model with structural invariant walks; end-to-end #define/#undef/-D/-U histories through chibicc -E vs dict',
              text='Online checker of the dictionary specification: after every operation the table answer is compared with a reference model and structural invariants (no duplicate live key, used == non-empty slots, an empty slot exists, every live key reachable from its home slot) are walked. The space of put/get/delete histories of length <= 7 over 3 colliding keys is enumerated completely (reported as an exhaustive sub-space); longer histories, table growth and the real macro table are sampled.',
              note='gcc ASan/UBSan; the harness reads hashmap.c statics but only calls its public functions; model = last write wins'),
+
+ 'C14': dict(level='fault_enumeration', ref='3/C14', technique='fault injection (LD_PRELOAD constructor keyed on a shared per-role counter; strace syscall injection for fork) + offline checker over the process-tree event log and directory snapshots',
+             text='The finite space command shape {-E,-S,-c,link} x {-o,default} x 1..3 inputs over {.c,.s,.o} is walked completely; for every legal shape every pipeline step (k-th cc1, k-th as, ld) is made to fail by exit status and by signal, with the outputs absent or pre-existing with a sentinel; natural failures (syntax error, missing/directory input, unwritable output), illegal shapes, concurrent drivers in one directory and (thorough) failing fork() are added. The checker decides exit status, temp-file conservation (mkstemp set = unlinked set, nothing left), sentinel integrity, directory diff and cross-unlink from the recorded events.',
+             note='faults fire at process start of the k-th child; partial-progress crashes of as/ld and a driver killed from outside are not modelled; GNU as/ld own-output handling on their own failures is not charged to the driver'),
 }
 REASON_WIP = 'check not built yet in this session (planned, see DESIGN.md section 3); will be claimed once its monitor is silent on the unchanged tree'
 
